@@ -40,6 +40,7 @@ func runC18(c *core.Ctx) {
 		h.codecPairSpec("C18.1 codec", p[0], p[1])
 	}
 	c.Floor("C18.1 codec (pairs)", len(pairs), 12)
+	h.decodersRejectOnlyReadFailures("C18.1e decoders-reject-only-read-failures")
 	h.configCodec("C18.1b config-codec")
 	c.Clause("C18.2 primitive widths and byte order agree; isEntryBuffered header length")
 	h.primitiveLayer("C18.2 primitives")
@@ -904,4 +905,103 @@ func evalEnumPredicate(fn *ssa.Function, val constant.Value) (result, known bool
 		}
 	}
 	return false, false
+}
+
+// decodersRejectOnlyReadFailures (C18.1e): decode(encode(x)) == x for every
+// value x needs the decoder to accept whatever the encoder writes. The wire
+// decoders fail only when a read fails; an error constructed inside a decoder
+// — a "defensive" range check on a decoded value — turns a value the encoder
+// produces (the last enum member, an empty list) into a decoding failure.
+// A constructed error is accepted only as the wrapping of a failed read (it is
+// built under `err != nil` of a call result).
+func (h H) decodersRejectOnlyReadFailures(rule string) {
+	exempt := map[string]string{
+		"(*Config).decode": "its argument is a log entry, not a byte stream: the entry's type tag is checked before the payload is decoded",
+	}
+	n := 0
+	for _, fn := range h.P.Funcs() {
+		if fn.Pkg == nil || fn.Pkg.Pkg.Name() != "raft" || fn.Name() != "decode" || fn.Signature.Recv() == nil {
+			continue
+		}
+		n++
+		fi := h.P.Info(fn)
+		bad := ""
+		core.Instrs(fn, func(in ssa.Instruction) {
+			constructed := false
+			switch x := in.(type) {
+			case *ssa.Call:
+				if sc := x.Common().StaticCallee(); sc != nil && sc.Pkg != nil {
+					q := sc.Pkg.Pkg.Path() + "." + sc.Name()
+					constructed = q == "fmt.Errorf" || q == "errors.New"
+				}
+			case *ssa.MakeInterface:
+				if types.Implements(x.X.Type(), errorIface()) {
+					if _, isCall := x.X.(*ssa.Call); !isCall {
+						constructed = true
+					}
+				}
+			}
+			if !constructed {
+				return
+			}
+			if v, ok := in.(ssa.Value); !ok || !flowsToReturn(v) {
+				return // a payload value (an error carried inside a message), not the decoder's verdict
+			}
+			wrap := false
+			for _, a := range fi.FactsAt(in) {
+				if a.Op == "!=" && a.R == "nil" && (strings.Contains(a.L, "(") || strings.HasPrefix(a.L, "ret:")) {
+					wrap = true
+				}
+			}
+			if !wrap && bad == "" {
+				bad = h.pos(in)
+			}
+		})
+		if why, ok := exempt[h.name(fn)]; ok && bad != "" {
+			h.C.Check(rule, h.name(fn), true, h.fpos(fn), "accepted: "+why)
+			continue
+		}
+		h.C.Check(rule, h.name(fn), bad == "", bad, "the decoder constructs an error of its own (not the wrapping of a failed read): it rejects a value that its encoder can write, so decode(encode(x)) fails for that x")
+	}
+	h.C.Floor(rule+" (wire decoders)", n, 10)
+}
+
+func errorIface() *types.Interface {
+	return types.Universe.Lookup("error").Type().Underlying().(*types.Interface)
+}
+
+// flowsToReturn: v can become a result of its function (through phis,
+// interface conversions and local variables; not through fields).
+func flowsToReturn(v ssa.Value) bool {
+	seen := map[ssa.Value]bool{}
+	work := []ssa.Value{v}
+	for len(work) > 0 {
+		x := work[len(work)-1]
+		work = work[:len(work)-1]
+		if seen[x] || x.Referrers() == nil {
+			continue
+		}
+		seen[x] = true
+		for _, r := range *x.Referrers() {
+			switch y := r.(type) {
+			case *ssa.Return:
+				return true
+			case *ssa.Phi:
+				work = append(work, y)
+			case *ssa.MakeInterface:
+				work = append(work, y)
+			case *ssa.ChangeInterface:
+				work = append(work, y)
+			case *ssa.Store:
+				if al, ok := y.Addr.(*ssa.Alloc); ok && y.Val == x {
+					for _, rr := range *al.Referrers() {
+						if u, ok := rr.(*ssa.UnOp); ok {
+							work = append(work, u)
+						}
+					}
+				}
+			}
+		}
+	}
+	return false
 }
